@@ -26,6 +26,14 @@ def run(tier, seed):
         p["ops"] += [{"op": "cv", "name": "cvT", "e": {"+": [{"c": 0}, {"*": ["1/2", "t"]}]}},
                      {"op": "req", "name": "cvT", "save": True, "req": {"type": "cv", "name": "cvT"}},
                      {"op": "req", "name": "rawf0", "save": True, "req": {"type": "flow", "flow_name": "f0", "raw": True}}]
+        if isinstance(shared["param"], dict):
+            # the varying rate of f0 is also tracked as a computed value, under two names; in half of the programs all
+            # three sites hold the very same Python object, as when a user defines the rate once and reuses it
+            p["ops"] += [{"op": "cv", "name": "cvR", "e": shared["param"]},
+                         {"op": "req", "name": "cvR", "save": True, "req": {"type": "cv", "name": "cvR"}},
+                         {"op": "cv", "name": "cvR2", "e": shared["param"]},
+                         {"op": "req", "name": "cvR2", "save": True, "req": {"type": "cv", "name": "cvR2"}}]
+            p["share_exprs"] = i % 4 < 2
         progs.append(p)
     for i in range(max(4, n // 12)):
         r = g.rng
@@ -65,7 +73,8 @@ def run(tier, seed):
         if (not p["nonlinear"]) or nsteps(p) <= 2:
             obs.append({"obs": "run", "solver": "euler", "params": pv})
         obs.append({"obs": "oracle", "name": "c10", "params": pv, "points": pts, "program": checklib.strip_meta(dict(p, obs=[])),
-                    "raw_flows": [{"name": "rawf0", "flow_name": "f0"}], "cvs": {"cvT": {"+": [{"c": 0}, {"*": ["1/2", "t"]}]}},
+                    "raw_flows": [{"name": "rawf0", "flow_name": "f0"}],
+                    "cvs": {o_["name"]: o_["e"] for o_ in p["ops"] if o_["op"] == "cv" and o_["name"] in ("cvT", "cvR", "cvR2")},
                     "solver": g.rng.choice(["euler", "rk4"])})
         obs.append({"obs": "oracle", "name": "c01", "params": pv, "t": pts[0][0], "x": pts[0][1]})
         p["obs"] = obs
@@ -81,7 +90,7 @@ def run(tier, seed):
     return {"programs": out, "explore": ex, "distinct_nontrivial": len(nontrivial),
             "rule": "models mixing constant, parameter-only, time-dependent (affine, piecewise, interpolated) and state-dependent "
                     "rates and adjustments, time-varying mixing matrices, plus two flows sharing a name and a twin flow with an "
-                    "otherwise equal constant weight; one_step at 3 (quick) / 6 (thorough) points (t, x) including times between "
+                    "otherwise equal constant weight, the varying rate of a flow also tracked as a computed value under two names (half of them sharing one Python object with the flow); one_step at 3 (quick) / 6 (thorough) points (t, x) including times between "
                     "output times and boundary states, compared with the model; on the implementation: evaluation at a sequence of "
                     "points vs a freshly built runner at each point (bit-exact), raw flow outputs and computed values along a "
                     "trajectory vs one_step at (times[i], outputs[i]); sigmoidal / linear / piecewise functions over another x axis "
